@@ -328,15 +328,21 @@ class UnaryExpression(MathExpression):
 
 
 def _leads_with_literal_power(node: Optional[MathExpression]) -> bool:
-    """Whether the text of a node starts with a literal raised to a power, or with
-    the factorial of a literal"""
-    while isinstance(node, (MultiplyExpression, DivideExpression)):
-        node = node.left
-    if isinstance(node, FactorialExpression):
-        return isinstance(node.get_child(), ConstantExpression)
-    return isinstance(node, PowerExpression) and isinstance(
-        node.left, ConstantExpression
-    )
+    """Whether the text of a node starts with a literal that a power or a factorial
+    is applied to, e.g. `2^3 * x` or `3!^2`"""
+    applied = False
+    while True:
+        if isinstance(node, (MultiplyExpression, DivideExpression)):
+            node = node.left
+        elif isinstance(node, PowerExpression):
+            node = node.left
+            applied = True
+        elif isinstance(node, FactorialExpression):
+            node = node.get_child()
+            applied = True
+        else:
+            break
+    return applied and isinstance(node, ConstantExpression)
 
 
 class NegateExpression(UnaryExpression):
@@ -695,6 +701,11 @@ class PowerExpression(BinaryExpression):
         if isinstance(self.left, (NegateExpression, PowerExpression)):
             left = f"({left})"
         if isinstance(self.right, PowerExpression):
+            right = f"({right})"
+        # x^-(a / b) is not x^-a / b
+        if isinstance(self.right, NegateExpression) and isinstance(
+            self.right.get_child(), (MultiplyExpression, DivideExpression)
+        ):
             right = f"({right})"
         return "{}{}{}".format(left, self.with_color(self.name), right)
 
